@@ -240,6 +240,31 @@ pub fn run(ctx: &Ctx) -> Report {
         })
         .reduce(Acc::default, |a, b| a.merge(b));
     let acc = acc.merge(acc_cm);
+    // many attributes: n = 1..=200 and 1000, 4000, 16000 attributes (one type repeated / distinct
+    // types / XOR-PEER-ADDRESS-like 8-byte values), plain and with a trailing FINGERPRINT: a well-formed
+    // message is accepted however many attributes it has, and iteration yields them all
+    let mut many: Vec<Case> = Vec::new();
+    for n in (1..=200usize).chain([1000, 4000, 16000]) {
+        for shape in 0..3u8 {
+            let mut b = wire::encode_header(0, 8, 0x5152_5354_5556_5758_595A_5B5C, 0);
+            for i in 0..n {
+                match shape {
+                    0 => wire::append_raw(&mut b, 0x0012, &[0, 1, (i >> 8) as u8, i as u8, 10, 0, (i >> 8) as u8, i as u8]),
+                    1 => wire::append_raw(&mut b, 0xC000 + (i % 0x3000) as u16, &[]),
+                    _ => wire::append_raw(&mut b, 0x8022, &[b'a' + (i % 26) as u8]),
+                }
+            }
+            if b.len() > 65_000 {
+                continue;
+            }
+            many.push(Case::new("parse", b.clone()).text(&["many"]));
+            if n <= 200 {
+                wire::append_fp(&mut b);
+                many.push(Case::new("parse", b).text(&["many"]));
+            }
+        }
+    }
+    let acc = acc.merge(crate::props::sweep(many.into_par_iter(), judge));
     // repeated attributes of every built-in type: two and three occurrences whose values are each
     // either a valid value, another valid value, or a value the typed decoder refuses, in every order
     // (with and without a FINGERPRINT): every lookup, raw and typed, answers from the first occurrence
@@ -278,7 +303,7 @@ pub fn run(ctx: &Ctx) -> Report {
     Report {
         acc,
         exhaustive: true,
-        rule: "all attribute skeletons over {OPT,SW x len 0/1/3/4, MI, MI256, FP ok, FP bad} to the stated depth x 4 header variants (one per class); on each: every cut point, header-length perturbation, excess variant, per-attribute length perturbation, top bits, every cookie bit, non-zero padding; on skeletons of <= 3 attributes (thorough 4) also every value of every type/length byte of the header and of each attribute header and every single-bit flip of buffers up to 64 bytes; plus every 16-bit attribute type (value length 0 and 5) at each position of 10 templates around MI / MI256 / FP; large messages (one big attribute + every tail of <= 2 sealing attributes, ending at every multiple of 4 in 65480..=65552 and around 256 / 4096 / 32768) and values that look like sealing-attribute headers, each with header-length perturbations and cuts; all 16 384 (class, method) pairs x four small bodies x six variants; messages with two / three occurrences of each built-in type (valid, other valid, refused value, every order); typed lookups compared with the typed decoding of the first occurrence on every accepted message; distinct_nontrivial counts fault-free skeleton buffers".into(),
+        rule: "all attribute skeletons over {OPT,SW x len 0/1/3/4, MI, MI256, FP ok, FP bad} to the stated depth x 4 header variants (one per class); on each: every cut point, header-length perturbation, excess variant, per-attribute length perturbation, top bits, every cookie bit, non-zero padding; on skeletons of <= 3 attributes (thorough 4) also every value of every type/length byte of the header and of each attribute header and every single-bit flip of buffers up to 64 bytes; plus every 16-bit attribute type (value length 0 and 5) at each position of 10 templates around MI / MI256 / FP; large messages (one big attribute + every tail of <= 2 sealing attributes, ending at every multiple of 4 in 65480..=65552 and around 256 / 4096 / 32768) and values that look like sealing-attribute headers, each with header-length perturbations and cuts; all 16 384 (class, method) pairs x four small bodies x six variants; messages with 1..=200 / 1000 / 4000 / 16000 attributes; messages with two / three occurrences of each built-in type (valid, other valid, refused value, every order); typed lookups compared with the typed decoding of the first occurrence on every accepted message; distinct_nontrivial counts fault-free skeleton buffers".into(),
         bounds: json!({"skeletons": n_sk, "full_alphabet_depth": n_full, "small_alphabet_depth": n_small, "header_variants": 4, "faults": "single"}),
         assumptions: vec!["buffers outside the grammar alphabets and with two or more independent faults are not explored".into()],
         ..Default::default()
@@ -401,6 +426,15 @@ pub fn judge(case: &Case, acc: &mut Acc) {
         };
         if !same {
             viol!(acc, P, "try_from-vs-from_bytes", case, "Message::try_from(&[u8]) and Message::from_bytes disagree", format!("{:?}", real.as_ref().map(|_| "Ok").map_err(|e| format!("{e:?}"))), format!("{:?}", via_try.as_ref().map(|_| "Ok").map_err(|e| format!("{e:?}"))));
+        }
+    }
+    // the same bytes at the other residues of their address modulo 4 (fault-free and family buffers;
+    // the single-fault mutants of a buffer share its alignment behaviour)
+    let tag = case.text.first().map(|s| s.as_str()).unwrap_or("none");
+    if matches!(tag, "none" | "class-method" | "many" | "alt-crc" | "large" | "type-sweep") || case.text.is_empty() {
+        let first = real::parse_summary(buf);
+        if let Some((r, got)) = real::differs_at_residue(buf, &first, real::parse_summary) {
+            viol!(acc, P, "parse-depends-on-alignment", case, format!("the same bytes parse differently when they lie at an address that is {r} modulo 4"), format!("{first:?}").chars().take(300).collect::<String>(), format!("{got:?}").chars().take(300).collect::<String>());
         }
     }
     match (&reference, real) {
